@@ -230,6 +230,63 @@ def main(pid, tier, seed):
                     {'kind': 'int_grammar via CrackingSession.run + .sav file', 'grammar': g, 'cuts': cuts})
                 n_session_hist += 1
 
+        # sessions STARTED with --skip_brute / --all_lower: on --load the flags come from the save file (the real
+        # pcfg_guesser.load_save), and the reference is the uninterrupted run under the same flags
+        for fi in range(4 if tier == 'quick' else 40):
+            d = os.path.join(work, 'sf%d' % fi)
+            for attempt in range(40):
+                # both flags must matter: several case-mask groups and a Markov structure
+                desc = ptq.random_float_ruleset(rng, d)
+                if any(t[0] == 'C' and len({p for _, p in v}) >= 2 for t, v in desc['terminals'].items()) and \
+                        any(sname == 'M' for sname, _ in desc['base']):
+                    break
+            for flags in (dict(skip_brute=True), dict(skip_case=True)):
+                try:
+                    ref = ptq.load_pcfg(d, **flags)
+                except Exception:
+                    continue
+                nn = ptq.n_nodes(ptq.sizes_of(ref))
+                if nn < 2 or nn > 400:
+                    continue
+                cuts = [rng.randrange(nn)] + ([rng.randrange(nn)] if rng.random() < 0.5 else [])
+                fn = os.path.join(d, 'sess.sav')
+                if os.path.exists(fn):
+                    os.remove(fn)
+                sessions = []
+                exhausted = False
+                for si in range(len(cuts) + 1):
+                    cut = cuts[si] if si < len(cuts) else None
+                    if si == 0:
+                        pcfg = ptq.load_pcfg(d, save_file=fn, **flags)
+                        r = session.run_session(pcfg, session.new_save_config(**flags), fn, quit_at_pt=cut)
+                        saved = None
+                    else:
+                        cfg, info = session.load_save(fn)
+                        if cfg is None:
+                            break
+                        saved = cfg.getfloat('guessing_info', 'max_probability')
+                        pcfg = ptq.load_pcfg(d, save_file=fn, skip_brute=info.get('skip_brute', False), skip_case=info.get('skip_case', False))
+                        r = session.run_session(pcfg, cfg, fn, load=True, quit_at_pt=cut)
+                    items = r['popped']
+                    guessed = items[:-1] if (r['quit'] and items) else items
+                    sessions.append({'saved': saved, 'ev': [(it, None) for it in guessed], 'quit': None, 'restored': None})
+                    if not r['quit']:
+                        exhausted = True
+                        break
+                if not exhausted:
+                    continue
+                try:
+                    add(ref, {'sessions': sessions, 'exhausted': True}, False, None,
+                        {'kind': 'float ruleset via CrackingSession.run + .sav file, flags from the save file', 'ruleset': desc, 'flags': flags, 'cuts': cuts})
+                    n_session_hist += 1
+                except (KeyError, IndexError) as ex:
+                    # a pre-terminal that does not exist under the session's flags was emitted after --load
+                    tid += 1
+                    ptraces.append({'tid': tid, 'mode': mode, 'sizes': [[1]], 'sess': [{'saved': ptq.INF, 'ev': []}], 'exhausted': True,
+                                    'ev2': [], 'raised': True})
+                    meta[tid] = {'kind': 'float ruleset via CrackingSession.run + .sav file, flags from the save file', 'ruleset': desc,
+                                 'flags': flags, 'cuts': cuts, 'error': 'resumed session emitted a pre-terminal unknown under the flags: %r' % (ex,)}
+
     # ---- shipped ruleset prefix (order / reported probability only; node space not tabulated) ----
     extra_prefix = 0
     if pid == 'C01':
